@@ -18,7 +18,8 @@ OUTPUT = "DispatchGen.v"
 ITEMS = ["good_char (DynamicResource.GOOD)", "dyn_name_start/dyn_name_char (DynamicResource.DYN)",
          "DYN_WITH_RE / ROUTE_RE text", "unquote_table (_unquote_path_safe)", "requote fixup (_requote_path)",
          "index key formula (_get_resource_index_key)", "ancestor walk step (UrlDispatcher.resolve)",
-         "slash merging regexes (normalize_path_middleware)"]
+         "slash merging regexes (normalize_path_middleware)",
+         "repaired shapes (_path_safe, _set_match_prefix, _add_prefix_to_resources, _merge_allowed and its call, pattern literal)"]
 
 F = "aiohttp/web_urldispatcher.py"
 
@@ -26,6 +27,7 @@ F = "aiohttp/web_urldispatcher.py"
 def _strip_doc(fn):
     fn = ast.parse(ast.unparse(fn)).body[0]
     fn.returns = None
+    fn.decorator_list = []
     for a in fn.args.args:
         a.annotation = None
     if fn.body and isinstance(fn.body[0], ast.Expr) and isinstance(fn.body[0].value, ast.Constant) and isinstance(fn.body[0].value.value, str):
@@ -122,7 +124,45 @@ _EXPECTED_KEY = '''
 def _get_resource_index_key(self, resource):
     if "{" in (index_key := resource.canonical):
         index_key = index_key.partition("{")[0].rpartition("/")[0]
-    return index_key.rstrip("/") or "/"
+    return _path_safe(index_key.rstrip("/")) or "/"
+'''
+
+_EXPECTED_PATH_SAFE = '''
+def _path_safe(value):
+    return URL.build(path=value, encoded=True).path_safe
+'''
+
+_EXPECTED_SET_MATCH_PREFIX = '''
+def _set_match_prefix(self):
+    self._prefix_safe = _path_safe(self._prefix)
+    self._prefix2 = self._prefix_safe + "/"
+'''
+
+_EXPECTED_ADD_PREFIX_TO_RESOURCES = '''
+def _add_prefix_to_resources(self, prefix):
+    router = self._app.router
+    for resource in router.resources():
+        indexed = not isinstance(resource, MatchedSubAppResource)
+        if indexed:
+            router.unindex_resource(resource)
+        resource.add_prefix(prefix)
+        if indexed:
+            router.index_resource(resource)
+'''
+
+_EXPECTED_MERGE = '''
+def _merge_allowed(request, match_info, allowed_methods):
+    exc = match_info.http_exception
+    if isinstance(exc, HTTPMethodNotAllowed):
+        allowed_methods = allowed_methods | exc.allowed_methods
+        if allowed_methods == exc.allowed_methods:
+            return match_info
+    elif not isinstance(exc, HTTPNotFound):
+        return match_info
+    merged = MatchInfoError(HTTPMethodNotAllowed(request.method, allowed_methods))
+    for app in reversed(match_info.apps):
+        merged.add_app(app)
+    return merged
 '''
 
 _EXPECTED_INDEX = '''
@@ -149,6 +189,40 @@ def _walk_step():
              and n.targets[0].id == "url_part" and n not in hits]
     if len(start) != 1 or ast.unparse(start[0].value) != "request.rel_url.path_safe":
         raise TranslatorError("UrlDispatcher.resolve: the walk must start at request.rel_url.path_safe")
+
+
+def _count_stmt(fn, src):
+    want = ast.dump(ast.parse(src).body[0], annotate_fields=False)
+    return sum(1 for n in ast.walk(fn) if isinstance(n, ast.stmt)
+               and ast.dump(ast.parse(ast.unparse(n)).body[0], annotate_fields=False) == want)
+
+
+def _repaired_shapes():
+    """Shapes introduced by the repairs 94230c1 / 2ef822d / 70456c5 that the model transcribes."""
+    _same_shape(F, "_path_safe", None, _EXPECTED_PATH_SAFE)
+    _same_shape(F, "_set_match_prefix", "PrefixResource", _EXPECTED_SET_MATCH_PREFIX)
+    _same_shape(F, "_add_prefix_to_resources", "PrefixedSubAppResource", _EXPECTED_ADD_PREFIX_TO_RESOURCES)
+    _same_shape(F, "_merge_allowed", "UrlDispatcher", _EXPECTED_MERGE)
+    init = core.find_function(F, "__init__", cls="DynamicResource")
+    if _count_stmt(init, "pattern += re.escape(_path_safe(part))") != 1 or _count_stmt(init, "formatter += part") != 1 \
+            or _count_stmt(init, "part = _requote_path(part)") != 1:
+        raise TranslatorError("DynamicResource.__init__: literal parts must be requoted for the formatter and matched in their path_safe form")
+    res = core.find_function(F, "resolve", cls="UrlDispatcher")
+    call = """
+if allowed_methods and match_dict.http_exception is not None:
+    return self._merge_allowed(request, match_dict, allowed_methods)
+"""
+    if _count_stmt(res, call) != 1:
+        raise TranslatorError("UrlDispatcher.resolve: the merge of collected allowed methods into a sub-application's 404/405 was not found exactly once")
+    st = core.find_function(F, "resolve", cls="StaticResource")
+    if _count_stmt(st, "if not norm_path.startswith(self._prefix2) and norm_path != self._prefix_safe:\n    return None, set()") != 1:
+        raise TranslatorError("StaticResource.resolve: prefix test is not on the path_safe form")
+    if "path[len(self._prefix_safe) + 1:]" not in ast.unparse(st):
+        raise TranslatorError("StaticResource.resolve: filename is not cut after the path_safe prefix")
+    ap = core.find_function(F, "add_prefix", cls="DynamicResource")
+    if _count_stmt(ap, "self._pattern = re.compile(re.escape(prefix) + self._pattern.pattern)") != 1 \
+            or _count_stmt(ap, "self._formatter = prefix + self._formatter") != 1:
+        raise TranslatorError("DynamicResource.add_prefix: unexpected shape")
 
 
 def _middleware_regexes():
@@ -207,9 +281,10 @@ def generate() -> str:
     _same_shape(F, "index_resource", "UrlDispatcher", _EXPECTED_INDEX)
     _same_shape(F, "unindex_resource", "UrlDispatcher", _EXPECTED_UNINDEX)
     out.append("(* _get_resource_index_key: canonical.partition(ik_brace)[0].rpartition(ik_sep)[0] when ik_brace occurs;\n"
-               "   then .rstrip(ik_sep) or ik_sep *)\n"
+               "   then _path_safe(.rstrip(ik_sep)) or ik_sep *)\n"
                "Definition ik_brace : N := 123.\nDefinition ik_sep : N := 47.\n")
     _walk_step()
+    _repaired_shapes()
     n = _middleware_regexes()
     out.append(f"(* normalize_path_middleware: {n} re.sub calls; runs of merge_min_run or more '/' become one '/' *)\n"
                "Definition merge_min_run : N := 2.\n")
